@@ -231,8 +231,13 @@ def run(chk, prog):
     evt = Evaluator(prog)
     evt.opaque_methods.add("before_tail_call")
     rt = evt.eval_fn(TC.methods["jvp_estimate"], TC.module, TC)
-    want = ("call", KD, (P("key"), ("call", ("attr", P("self"), "before_tail_call"), (P("key"), DT), ())), ())
-    chk.require(rt.ret == want, "KONT-ARITY", "TailCallADEVPrimitive.jvp_estimate", "kdual(key, before_tail_call(key, dual_tree))", derived=show(rt.ret)[:200], expected=show(want), where=f"{TC.module.rel}:{TC.methods['jvp_estimate'].lineno}")
+    t = rt.ret
+    okt = is_t(t, "call") and t[1] == KD and len(t[2]) == 2 and is_mcall(t[2][1], "before_tail_call") and t[2][1][1][1] == P("self") and len(t[2][1][2]) == 2 and t[2][1][2][1] == DT
+    chk.require(okt, "KONT-ARITY", "TailCallADEVPrimitive.jvp_estimate", "kdual(key', before_tail_call(key'', dual_tree))", derived=show(t)[:200], expected="kdual(k1, self.before_tail_call(k2, dual_tree))", where=f"{TC.module.rel}:{TC.methods['jvp_estimate'].lineno}")
+    if okt:
+        kc, kp = t[2][0], t[2][1][2][0]
+        chk.require(kc != kp and is_t(kc, "proj") and is_t(kp, "proj") and is_call(kc[1], "split") and kc[1] == kp[1], "KEY-LINEAR", "TailCallADEVPrimitive.jvp_estimate/keys", "shared key",
+                    derived=f"continuation key {show(kc)}; primitive key {show(kp)}", expected="two different children of split(key): the key a primitive consumes must not also be handed to the continuation (the next primitive would derive the same sub-key)", where=f"{TC.module.rel}:{TC.methods['jvp_estimate'].lineno}")
     # ---------------------------------------------------------------- Expectation
     EX = prog.cls("Expectation", CORE)
     eve = Evaluator(prog)
@@ -296,6 +301,18 @@ def run(chk, prog):
                 ok = is_call(envarg, "tree_primal") and is_mcall(envarg[2][0], "copy")
         chk.require(bool(ok), "CPS-CONT", f"eval_jaxpr_iterate_dual._sample_{kn}_kont", "resumes after this equation, on a copied environment, binding this equation's outvars", derived=der,
                     expected=f"{'eval_jaxpr_iterate_dual' if kn == 'dual' else 'eval_jaxpr_iterate_pure'}(key, eqns[eqn_idx + 1:], <copied env>, eqn.outvars, values)", where=whereI)
+    # the cond continuation resumes in the DUAL environment (tangents of earlier variables must survive the cond)
+    ck = [("closure", k) for k, c in evd.closures.items() if c.name == "_cond_dual_kont"]
+    okc_ = len(ck) >= 1
+    derc_ = "closure not found"
+    if okc_:
+        evd.closures[ck[0][1]].env["eval_jaxpr_iterate_dual"] = ("global", "$loop")
+        resc = evd.apply(ck[0], [P("$x")], module=AD.module, cls=AD)
+        derc_ = show(resc)[:260]
+        okc_ = is_t(resc, "call") and resc[1] == ("global", "$loop") and len(resc[2]) == 5 and resc[2][2] in (P("dual_env"), ("call", ("attr", P("dual_env"), "copy"), (), ())) \
+            and is_t(resc[2][1], "index") and resc[2][1][2] == ("sliceobj", ("bin", "+", ("enumidx", EQ), C(1)), C(None), C(None)) and resc[2][3] == ("attr", el, "outvars")
+    chk.require(bool(okc_), "CPS-CONT", "eval_jaxpr_iterate_dual._cond_dual_kont", "the cond continuation resumes after this equation in the dual environment", derived=derc_,
+                expected="eval_jaxpr_iterate_dual(key, eqns[eqn_idx + 1:], dual_env, eqn.outvars, duals) - not the primal-only environment", where=whereI)
     # default arm of the dual loop writes Dual(primal_out, tangent_out) to this equation's outvars
     eff = rd.env.get("__effects__", [])
     ow = [e for e in eff if is_call(e, "safe_map") and len(e[2]) == 3 and e[2][1] == ("attr", el, "outvars")]
